@@ -484,4 +484,36 @@ var clientSpecs = []fnSpec{
 	},
 }
 
-func init() { specs = append(specs, clientSpecs...) }
+var clientSpecs2 = []fnSpec{
+	{
+		file: "client/gribiclient.go", goName: "Q", recvType: "*Client", callAs: "c.Q", leanName: "clientQ",
+		params:       []param{{goName: "m", goType: "*spb.ModifyRequest", lean: "m", kd: kPtr("ModifyRequestC"), nonnil: true}},
+		goRets:       "", rets: []string{},
+		oracleParams: []param{clNow, {goName: "§sending", lean: "sending", kd: kBool}},
+		oracles: map[string]oracle{
+			"unixTS":              {results: []string{"§now"}},
+			"c.qs.sending.Load":   {results: []string{"§sending"}},
+			"c.addSendErr":        {results: []string{}, effect: "addSendErr"},
+			"c.q":                 {results: []string{}, effect: "clientq"},
+		},
+		state:   []stateField{clPend, clElec, clParams, {goExpr: "c.qs.sendq", lean: "sendq", kd: kind{k: "list", s: "ModifyRequestC", elemNN: true}}},
+		effects: true,
+	},
+	{
+		file: "client/gribiclient.go", goName: "Len", recvType: "*pendingQueue", recvIsParam: true, callAs: "*.Len", leanName: "pendingQueueLen",
+		params: []param{{goName: "p", goType: "*pendingQueue", lean: "p", kd: kPtr("pendingQueue")}},
+		goRets: "int", rets: []string{"nat"},
+	},
+	{
+		file: "client/gribiclient.go", goName: "isConverged", recvType: "*Client", callAs: "c.isConverged", leanName: "isConverged",
+		params: []param{},
+		goRets: "bool", rets: []string{"bool"},
+		oracleParams: []param{
+			{goName: "§sendq", lean: "sendq", kd: kind{k: "list", s: "ModifyRequestC", elemNN: true}},
+			{goName: "§pendq", lean: "pendq", kd: kPtr("pendingQueue")},
+		},
+		subst: map[string]string{"c.qs.sendq": "§sendq", "c.qs.pendq": "§pendq"},
+	},
+}
+
+func init() { specs = append(specs, clientSpecs...); specs = append(specs, clientSpecs2...) }
